@@ -41,8 +41,8 @@ fn rec_block(this: &mut Poly1305, m: &[u8]) {
 }
 /// RFC 8439 2.8: ciphertext = plaintext ^ stream from block 1 (block 0 gives the one-time key);
 /// MAC input = aad | pad16 | ct | pad16 | le64(|aad|) | le64(|ct|), always a whole number of 16-byte blocks
-fn rfc_ct<const N: usize>(pt: &[u8; N]) -> [u8; N] {
-    let mut c = ChaCha::<8>::new(&KEY, &NONCE);
+fn rfc_ct<const R: usize, const N: usize>(pt: &[u8; N]) -> [u8; N] {
+    let mut c = ChaCha::<R>::new(&KEY, &NONCE);
     c.seek(1);
     let mut ct = *pt;
     c.process_mut(&mut ct);
@@ -82,13 +82,13 @@ fn trace_is_rfc<const A: usize, const N: usize>(aad: &[u8; A], ct: &[u8; N]) {
         NB = 0;
     }
 }
-fn check_oneshot<const A: usize, const N: usize>() {
+fn check_oneshot<const R: usize, const A: usize, const N: usize>() {
     let aad: [u8; A] = kani::any();
     let pt: [u8; N] = kani::any();
-    let ect = rfc_ct(&pt);
+    let ect = rfc_ct::<R, N>(&pt);
     let mut ct = [0u8; N];
     let mut tag = [0u8; 16];
-    ChaChaPoly1305::<8>::new(&KEY, &NONCE, &aad).encrypt(&pt, &mut ct, &mut tag);
+    ChaChaPoly1305::<R>::new(&KEY, &NONCE, &aad).encrypt(&pt, &mut ct, &mut tag);
     let mut i = 0;
     while i < N {
         assert!(ct[i] == ect[i], "ciphertext == RFC 8439");
@@ -97,7 +97,7 @@ fn check_oneshot<const A: usize, const N: usize>() {
     trace_is_rfc(&aad, &ect);
     // decryption authenticates the received ciphertext with the same MAC input and restores the plaintext
     let mut back = [0u8; N];
-    let _ = ChaChaPoly1305::<8>::new(&KEY, &NONCE, &aad).decrypt(&ect, &mut back, &tag);
+    let _ = ChaChaPoly1305::<R>::new(&KEY, &NONCE, &aad).decrypt(&ect, &mut back, &tag);
     let mut i = 0;
     while i < N {
         assert!(back[i] == pt[i], "decrypt inverts encrypt");
@@ -107,11 +107,11 @@ fn check_oneshot<const A: usize, const N: usize>() {
     kani::cover!(true);
 }
 /// incremental interface with AAD and data each split in two (plus an empty first piece), in place and buffer to buffer
-fn check_incremental<const A: usize, const N: usize>(a_cut: usize, n_cut: usize) {
+fn check_incremental<const R: usize, const A: usize, const N: usize>(a_cut: usize, n_cut: usize) {
     let aad: [u8; A] = kani::any();
     let pt: [u8; N] = kani::any();
-    let ect = rfc_ct(&pt);
-    let mut ctx = Context::<8>::new(&KEY, &NONCE);
+    let ect = rfc_ct::<R, N>(&pt);
+    let mut ctx = Context::<R>::new(&KEY, &NONCE);
     ctx.add_data(&aad[..a_cut]);
     ctx.add_data(&aad[a_cut..]);
     let mut enc = ctx.clone().to_encryption();
@@ -146,31 +146,51 @@ fn check_incremental<const A: usize, const N: usize>(a_cut: usize, n_cut: usize)
 #[kani::stub(core::arch::x86_64::_mm_add_epi32, mm_add_epi32_def)]
 #[kani::stub(Poly1305::block, rec_block)]
 #[kani::unwind(70)]
-fn aead_oneshot_a0_n0() { check_oneshot::<0, 0>() }
+fn aead_oneshot_a0_n0() { check_oneshot::<8, 0, 0>() }
 // @harness props=C06,C07 kind=bounded bound=key,nonce_fixed,rounds=8,aad=5,len=16 tier=thorough timeout=2400 pairs=finalize_raw,pad16,encrypt,decrypt,new,finalize
 #[kani::proof]
 #[kani::stub(core::arch::x86_64::_mm_add_epi32, mm_add_epi32_def)]
 #[kani::stub(Poly1305::block, rec_block)]
 #[kani::unwind(70)]
-fn aead_oneshot_a5_n16() { check_oneshot::<5, 16>() }
+fn aead_oneshot_a5_n16() { check_oneshot::<8, 5, 16>() }
 // @harness props=C06,C07 kind=bounded bound=key,nonce_fixed,rounds=8,aad=16,len=17 tier=thorough timeout=2400 pairs=finalize_raw,pad16,encrypt,decrypt,new,finalize
 #[kani::proof]
 #[kani::stub(core::arch::x86_64::_mm_add_epi32, mm_add_epi32_def)]
 #[kani::stub(Poly1305::block, rec_block)]
 #[kani::unwind(70)]
-fn aead_oneshot_a16_n17() { check_oneshot::<16, 17>() }
+fn aead_oneshot_a16_n17() { check_oneshot::<8, 16, 17>() }
 // @harness props=C06,C07 kind=bounded bound=key,nonce_fixed,rounds=8,aad=13(cut5),len=33(cut16) tier=thorough timeout=2400 pairs=to_encryption,to_decryption,add_data,add_encrypted,encrypt_mut,decrypt_mut,finalize_raw
 #[kani::proof]
 #[kani::stub(core::arch::x86_64::_mm_add_epi32, mm_add_epi32_def)]
 #[kani::stub(Poly1305::block, rec_block)]
 #[kani::unwind(70)]
-fn aead_incremental_a13_n33() { check_incremental::<13, 33>(5, 16) }
+fn aead_incremental_a13_n33() { check_incremental::<8, 13, 33>(5, 16) }
 // @harness props=C06,C07 kind=bounded bound=key,nonce_fixed,rounds=8,aad=3(cut0),len=15(cut7) tier=thorough timeout=2400 pairs=to_encryption,to_decryption,add_data,add_encrypted,encrypt_mut,decrypt_mut,finalize_raw
 #[kani::proof]
 #[kani::stub(core::arch::x86_64::_mm_add_epi32, mm_add_epi32_def)]
 #[kani::stub(Poly1305::block, rec_block)]
 #[kani::unwind(70)]
-fn aead_incremental_a3_n15() { check_incremental::<3, 15>(0, 7) }
+fn aead_incremental_a3_n15() { check_incremental::<8, 3, 15>(0, 7) }
+// further lengths
+// lengths on both sides of the 16-byte MAC block boundary
+// @harness props=C06,C07 kind=bounded bound=key,nonce_fixed,rounds=8,aad=5,len=16 tier=quick timeout=900 pairs=finalize_raw,pad16,encrypt,decrypt,new,finalize
+#[kani::proof]
+#[kani::stub(core::arch::x86_64::_mm_add_epi32, mm_add_epi32_def)]
+#[kani::stub(Poly1305::block, rec_block)]
+#[kani::unwind(70)]
+fn aead_oneshot_r2_a5_n16() { check_oneshot::<8, 5, 16>() }
+// @harness props=C06,C07 kind=bounded bound=key,nonce_fixed,rounds=8,aad=16(cut3),len=32(cut16) tier=quick timeout=900 pairs=to_encryption,to_decryption,add_data,add_encrypted,encrypt_mut,decrypt_mut,finalize_raw
+#[kani::proof]
+#[kani::stub(core::arch::x86_64::_mm_add_epi32, mm_add_epi32_def)]
+#[kani::stub(Poly1305::block, rec_block)]
+#[kani::unwind(70)]
+fn aead_incremental_r2_a16_n32() { check_incremental::<8, 16, 32>(3, 16) }
+// @harness props=C06,C07 kind=bounded bound=key,nonce_fixed,rounds=8,aad=1(cut0),len=17(cut1) tier=quick timeout=900 pairs=to_encryption,to_decryption,add_data,add_encrypted,encrypt_mut,decrypt_mut,finalize_raw
+#[kani::proof]
+#[kani::stub(core::arch::x86_64::_mm_add_epi32, mm_add_epi32_def)]
+#[kani::stub(Poly1305::block, rec_block)]
+#[kani::unwind(70)]
+fn aead_incremental_r2_a1_n17() { check_incremental::<8, 1, 17>(0, 1) }
 // C20: misuse fails loudly
 // @harness props=C20 kind=bounded bound=taglen<=20 tier=quick expect=refuse timeout=600
 #[kani::proof]
